@@ -1186,7 +1186,8 @@ lazyLibGet(String name)
 	}
 
 	if (lib == NULL)
-		LongJmp(fintJmpBuf, 1);
+		comsgFatal(NULL, ALDOR_F_CantOpen,
+			   strEqual(name, "runtime") ? "libfoam.al" : aoFile);
 
 	if (!lib->intLoaded) {
 		libUsedList = listCons(Lib)(lib, libUsedList);
